@@ -223,7 +223,7 @@ func pow(a, b int) int {
 	return r
 }
 
-var c01Opts = lexGenOpts{MaxToks: 5, MaxIgn: 2, MaxDefs: 3, MaxLits: 2, Depth: 3}
+var c01Opts = lexGenOpts{MaxToks: 5, MaxIgn: 2, MaxDefs: 3, MaxLits: 2, Depth: 3, NullableStars: true}
 
 func checkC01(c *Ctx) {
 	c.Level = "model_checking"
